@@ -56,6 +56,11 @@ CLAIMED = {
          "CRDT values are abstract: the semilattice laws of Merge (idempotent, commutative, associative) and 'Write is an inflation' are axioms here (for GCounter they are the lemmas proved under C12; for AWORSet/LWWSet they are assumptions, and DESIGN.md section 4 records that AWORSet.Merge violates associativity on reachable states). "
          "NOT covered: broadcast/runBroadcasts/tryConnectPeers (RPC, timers, needBroadcastCount bookkeeping), hence 'eventually reaches every connected peer' (liveness) and 'replicas converge once updates stop' are not decided; Close.",
          "contract-based deductive verification: strict monitor invariants (Owicki-Gries style) over go/ssa, two-state postconditions relative to the lock acquisition (atlock), abstract semilattice axioms, z3/cvc5"),
+ "C18": ("Deductive proof of the logging discipline of the runtime: the event accumulator appends exactly one element per recorded read / write, carrying the indices and the value of the access (and the old-value hint pointer for writes), BeginEvent requires an empty accumulator, CommitEvent hands the recorder exactly one event holding exactly the accumulated elements, the abort flag and the archetype identity, and never touches the handed-over elements again (this frame obligation failed on the pinned tree: genuine defect, fixed in 152ee63d); "
+         "Read / Write log the value actually read / written with its indices; commit finalises the attempt (isAbort = false) exactly when it succeeds, abort finalises it with isAbort = true; Run's loop invariant (ghost counts per accumulator) shows that every attempt that is begun is finalised exactly once before the next one begins, whatever path the loop takes (read error, body error, commit error, success).",
+         "NOT covered: vector clocks (VClockSink is trusted frame-only; 'own component grows by one per attempt' and 'a reader's clock dominates the writer's' are not decided), JSON serialisation (MarshalJSON, JSONToTLA.scala), the replay claim ('replaying the committed writes reproduces every logged read'), and logging by resources other than the runtime core. "
+         "RecordRead/RecordWrite may panic on a resource name without a dot (admitted in their contracts; the code generator never produces one). The attempt that ends the run (ErrDone) or fails with another error is begun but not finalised, by design of Run.",
+         "contract-based deductive verification: WP over go/ssa, ghost counters updated by contract (ghostset), loop invariant over the retry loop, cut-point obligations on call arguments, slice-aliasing model, z3/cvc5"),
  "C19": ("Deductive proof of the state logic of the failure detector: ReadValue's answer is a function of the state getState returned (uninitialised: the section aborts after one polling interval, the only delay; alive: FALSE; anything else: TRUE) and reading never writes the state (strict monitor on the state lock); "
          "every iteration of the polling loop records failed whenever the dial fails, the RPC reports an error or the timeout fires, and otherwise records exactly the monitor's reply (cut-point obligations at every setState call); "
          "Monitor.RunArchetype records alive before the archetype runs, finished after a normal end, failed after an error, and its deferred epilogue records failed and returns an error exactly when the archetype panicked (recover modelled); IsAlive answers with the recorded state or an error for an unknown archetype.",
